@@ -32,7 +32,7 @@ def main():
     os.environ['BCL_DATA_DIR'] = d
     for k, v in arm.get('env', {}).items():
         os.environ[k] = v
-    runner._import_library(repo)
+    runner._import_library(repo, keep_logging=bool(arm.get('library_logging')))
     scen = importlib.import_module(arm['module'])
     if hasattr(scen, 'init_worker'):
         scen.init_worker(d)
